@@ -1,4 +1,5 @@
 import PyaModel.Spec.FixSpec
+import PyaModel.Generated.FixConsts
 /-! Line protocol driver for C16.
 
 Source lines are space-separated, each a dot-separated list of decimal code points (`-` = empty line);
@@ -19,8 +20,13 @@ a list of lines that is empty is written `E`; `N` stands for Python's `None`.
 `R|<lines>|<first>|<astLast>|<stmtEnd>`
   → `range=<a,b,…> spec=<a,b,…> D=<stmtRangeOverrun | ->`
 
-`X|<lines>|<first>|<stmtEnd>|<adds>|<sharesLine><soleInBlock><isElif><pctRisky><decorated>`   (five 0/1 digits)
-  → `D=<classes | ->`   (stmtRangeOverrun, sharedLine, emptyBlock, elifHeader, fstringConversion, decoratedStmt)
+`X|<lines>|<first>|<stmtEnd>|<adds>|<sharesLine><soleInBlock><isElif><pctRisky><decorated><hasWalrus><pctTail>`   (seven 0/1 digits)
+  → `D=<classes | ->`   (stmtRangeOverrun, sharedLine, emptyBlock, elifHeader, fstringConversion, decoratedStmt, walrusInRemoved, fstringTail)
+
+`G|<targets>|<valueBinds>|<u>`   the removal guard of `_check_function_unused_vars` (regenerated `Gen.removalGuard`)
+  targets: `K` then K targets, target: `n NAME` | `t K` targets | `l K` targets | `s` target | `o KIND`;
+  valueBinds: comma-separated names or `-`
+  → `guard=<0|1> sole=<0|1> D=<walrusInRemoved | ->`   (sole = `soleBinding`)
 
 `T|<hook>|<tree>[|<tree>[|<tree>]]`   the real `NodeTransformer` on a tree; hook: `-` (plain copy), `r <id>` (replace the
   node by the second tree), `d <id>` (the visit of the node returns None), `s <id>` (… returns the list of the 2nd and 3rd tree)
@@ -222,6 +228,55 @@ def handleTree (hook : String) (trees : List String) : String :=
     | none => "bad-op"
   | _, _ => "bad-op"
 
+mutual
+  def parseTarget : Nat → List String → Option (Target × List String)
+    | 0, _ => none
+    | _ + 1, "n" :: x :: rest => some (.name x, rest)
+    | _ + 1, "o" :: k :: rest => some (.other k, rest)
+    | fuel + 1, "s" :: rest =>
+      match parseTarget fuel rest with
+      | some (t, rest) => some (.starred t, rest)
+      | none => none
+    | fuel + 1, "t" :: k :: rest =>
+      match k.toNat? with
+      | some k => match parseTargets fuel k rest with
+        | some (ts, rest) => some (.tuple ts, rest)
+        | none => none
+      | none => none
+    | fuel + 1, "l" :: k :: rest =>
+      match k.toNat? with
+      | some k => match parseTargets fuel k rest with
+        | some (ts, rest) => some (.list ts, rest)
+        | none => none
+      | none => none
+    | _, _ => none
+  def parseTargets : Nat → Nat → List String → Option (TargetList × List String)
+    | 0, _, _ => none
+    | _ + 1, 0, toks => some (.nil, toks)
+    | fuel + 1, k + 1, toks =>
+      match parseTarget fuel toks with
+      | some (t, rest) =>
+        match parseTargets fuel k rest with
+        | some (ts, rest) => some (.cons t ts, rest)
+        | none => none
+      | none => none
+end
+
+def handleGuard (targets valueBinds u : String) : String :=
+  match words targets with
+  | k :: toks =>
+    match k.toNat? with
+    | some k =>
+      match parseTargets (toks.length + 2) k toks with
+      | some (ts, []) =>
+        let vb := if valueBinds == "-" then [] else valueBinds.splitOn ","
+        let st : AssignStmt := ⟨ts, vb⟩
+        let b (x : Bool) := if x then "1" else "0"
+        s!"guard={b (Gen.removalGuard st u)} sole={b (soleBinding st u)} D={if bindsInValue st then "walrusInRemoved" else "-"}"
+      | _ => "bad-op"
+    | none => "bad-op"
+  | _ => "bad-op"
+
 def handle (line : String) : String :=
   match line.splitOn "|" with
   | ["A", ls, dels, adds] =>
@@ -261,16 +316,18 @@ def handle (line : String) : String :=
     | _, _, _, _ => "bad-op"
   | ["X", ls, first, stmtEnd, adds, flags] =>
     match parseLines ls, first.toNat?, stmtEnd.toNat?, parseAdds adds, flags.toList with
-    | some ls, some first, some stmtEnd, some adds, [a, b, c, e, g] =>
+    | some ls, some first, some stmtEnd, some adds, [a, b, c, e, g, w, pt] =>
       let fc : FixCase := { lines := ls, first := first, stmtEnd := stmtEnd, adds := adds,
                             sharesLine := a == '1', soleInBlock := b == '1', isElif := c == '1', pctRisky := e == '1',
-                            decorated := g == '1' }
+                            decorated := g == '1', hasWalrus := w == '1', pctTail := pt == '1' }
       let d := classes [(D16_stmtRangeOverrun ls first stmtEnd, "stmtRangeOverrun"), (D16_sharedLine fc, "sharedLine"),
                         (D16_emptyBlock fc, "emptyBlock"), (D16_elifHeader fc, "elifHeader"),
-                        (D16_fstringConversion fc, "fstringConversion"), (D16_decoratedStmt fc, "decoratedStmt")]
+                        (D16_fstringConversion fc, "fstringConversion"), (D16_decoratedStmt fc, "decoratedStmt"),
+                        (D16_walrusInRemoved fc, "walrusInRemoved"), (D16_fstringTail fc, "fstringTail")]
       s!"D={d}"
     | _, _, _, _, _ => "bad-op"
   | "T" :: hook :: trees => handleTree hook trees
+  | ["G", targets, vb, u] => handleGuard targets vb u
   | _ => "bad-op"
 
 partial def loop (h : IO.FS.Stream) : IO Unit := do
